@@ -36,17 +36,21 @@ RULE = ('corpus; exhaustive 2x2 matrices with votes 0..2, 1..3 seats, both divis
         'counts, D\'Hondt and Sainte-Lague, seats as a total, a per-district dictionary (derived from another apportionment, or a random '
         'composition that is sometimes infeasible) or through a custom apportioner (largest remainder, the other divisor, a uniform int); '
         'a boundary stream of matrices with repeated columns / rows (ties inside the initial column-wise solution); a same-labels stream '
-        '(districts and parties both labelled 0..k-1: equal labels on both sides, one of them falsy). The all-zero matrix '
-        'is left out. Instances whose party or district apportionment is tied are outside the quantifier and only counted. '
+        '(districts and parties both labelled 0..k-1: equal labels on both sides, one of them falsy); elections without a single '
+        'vote (zeros stored or rows left empty; total / dictionary / apportioner) and an empty-lines stream (whole districts and / or '
+        'parties without votes, district seats that often fall on a district without votes: the boundary of the refusal clause). '
+        'Instances whose party or district apportionment is tied are outside the quantifier and only counted. '
         'non-trivial = at least one transfer or multiplier update happened (trace longer than one state) or the call was refused; '
         'distinct by case hash')
-PARTIAL = ['termination of tie-and-transfer for all inputs is not proved (C07_termination_full_statement): observed under a wall-clock '
-           'bound per instance (exploration); proved: partial correctness of the whole-loop model for all inputs and the transfer bound '
-           'flaw/2 (C07_transfer_progress); the number of consecutive multiplier updates is not bounded',
+PARTIAL = ['termination is proved for the whole-loop MODEL (C07_terminates: at most (flaw/2 + 1) * (districts + parties + 2) iterations); '
+           'for the code it rests on the correspondence stream plus the same bound checked on the iteration count of every explored run; '
+           'a wall-clock limit per instance stays as the last line (a time-out is a violation)',
            'whole-loop model = code only as far as the correspondence stream explored; a code change that picks another valid output '
            'where cells tie loses the tie without violating C07: its outputs are judged by the checker and, when all are certified, the '
            'verdict is a broken correspondence without a failing input (LOOP_TIE_STRICT)',
-           '"refuses only when no seat matrix exists" is decided per instance (verified cut / matrix certificates), not for all inputs',
+           '"refuses only when no seat matrix exists" is proved for the MODEL at both refusal sites (C07_no_votes_refusal_justified, '
+           'C07_refusal_justified: signpost_q 0 and 1/2, target dictionary without foreign keys); for the code every explored refusal '
+           'is judged by the verified cut of the feasibility reference (now proved complete: C07_feasible_ref_complete)',
            'the row <-> HighestAverages model equality is stated (C07_row_is_highest_averages_full_statement) and proved in its '
            'declarative min-max form (C07_row_divisor_apportionment) only',
            'C07_augment_inv treats the transfer path as an oracle; the whole-loop theorems compute it (labeled + walk)']
@@ -54,7 +58,7 @@ TRUSTED = ['observation of the district iteration order: run_impl shadows the st
            '(library untouched) and rebuilds frozenset(cur) | frozenset(tgt) from the very arguments',
            'the verif hook in BiproportionalEvaluator.evaluate (records copies of result / district_coefs / party_coefs; add-only)',
            'harness-side exact solver for multipliers (untrusted: its output is only a certificate for cert_ok)']
-ASSUMPTIONS = ['a wall-clock limit stands in for termination', 'votes are non-negative integers, at least one of them positive']
+ASSUMPTIONS = ['votes are non-negative integers']
 EXTRA_PROOF_FILES = []
 GEN_TIES = {'Divisor': 'Props/GenTie_Divisor.v'}     # d_hondt / sainte_lague of the checker = component/divisor.py (translator tie)
 DIV = {1: 'd_hondt', 2: 'sainte_lague'}
@@ -211,14 +215,14 @@ def outcome_sx(state):
 
 
 # ---- the whole-loop model (Model/BipropLoop.v) against the implementation
-LOOP_CODE = {1: 'VSE', 2: 'ZERODIV', 3: 'KEY', 4: 'VALUE'}
+LOOP_CODE = {1: 'VSE', 2: 'ZERODIV', 3: 'KEY', 4: 'VALUE', 5: 'VSE'}      # 5 = no votes cast (fixes/C07-all-zero.diff)
 
 
 def loop_line(c, tgt, dorder):
     """tgt: 'same' or [[d, k] ...] in the key order of tgt_district_seats"""
     tm = '(0)' if tgt == 'same' else '(1 %s)' % sx(tgt)
     n = c['n'] if c['seats'][0] != 'dict' else sum(k for _, k in c['seats'][1])
-    return '%d (%d %s %s %d %s %s %d)' % (U_LOOP, c['div'], sx(QCONST[c['div']]), votes_sx(c), n, tm, sx(dorder), LOOP_FUEL)
+    return '%d (%d %s %s %d %s %s %d 1)' % (U_LOOP, c['div'], sx(QCONST[c['div']]), votes_sx(c), n, tm, sx(dorder), LOOP_FUEL)
 
 
 def canon_state(res, rho, gam):
@@ -245,13 +249,17 @@ def compare_loop(r, trace, mo):
     code, payload, mtrace = v[1]
     if code in (10, 11):
         return 'skip:%s apportionment tied (model)' % ('party' if code == 10 else 'district')
-    import votelib.evaluate.core as _core
-    if r[0] == 'ok' and any(isinstance(p, _core.Tie) for row in r[1][0].values() for p in row):
-        return 'skip:Tie key in the returned matrix (judged by the checker stream)'
+    import votelib.evaluate.core as core
+
+    def tie_in(res):
+        return any(isinstance(p, core.Tie) for row in res.values() for p in row)
+    if (r[0] == 'ok' and tie_in(r[1][0])) or any(tie_in(st[0]) for st in (trace or [])):
+        # (the model hands a tie inside a column to the first tied districts; a Tie KEY can only come out of a tied marginal)
+        return 'the implementation works on a matrix with a Tie key, the whole-loop model ends with code %d' % code
     try:
         itrace = [canon_impl_state(st) for st in (trace or [])]
     except (TypeError, ValueError, KeyError, AttributeError):
-        return 'skip:iteration state of the implementation cannot be encoded (judged by the checker stream)'
+        return 'the iteration states of the implementation cannot be encoded (not a seat matrix over the given districts and parties)'
     mtr = [canon_model_state(st) for st in mtrace]
     if code == 99 and len(itrace) >= LOOP_FUEL:
         return 'skip:more iterations than the model fuel'
@@ -263,6 +271,10 @@ def compare_loop(r, trace, mo):
     else:
         if LOOP_CODE.get(code) is None or common.E[LOOP_CODE[code]] != r[1]:
             return 'implementation raises %s, the whole-loop model ends with code %d' % (r[2], code)
+        # the two VotingSystemError sites: the refusal of an election without votes that opens evaluate (model code 5) and
+        # the invalid adjustment coefficient inside the loop (code 1)
+        if code in (1, 5) and ('adjustment coefficient' in r[2]) != (code == 1):
+            return 'implementation raises %s, the whole-loop model refuses at the other site (code %d)' % (r[2], code)
     # the outcome agrees; the multipliers and the states on the way are ghost output: a difference there does not touch the
     # property (the theorem certifies the model's matrix, which IS the returned one) - it is counted, not reported
     if trace is not None:
@@ -379,6 +391,10 @@ def judge(ctx, stream, cases, limit):
             io = common.err(r[1])
             ctx.nontrivial.add(common.case_hash(c))
             c = dict(c, _exc=r[2])
+            # C07_step_refusal_justified: from a state that satisfies the loop invariant the refused coefficient is 0, never >= 1
+            if 'adjustment coefficient' in r[2]:
+                coef = r[2].rsplit(' ', 1)[-1]
+                ctx.dist['refused coefficient: %s' % ('0' if coef in ('0', '0.0') else 'not 0 (excluded by C07_step_refusal_justified)')] += 1
             if v[1] == 0:
                 ctx.dist['refusal justified (verified cut)'] += 1
                 if len(ctx.samples) < 3:
@@ -475,6 +491,22 @@ def judge_loop(ctx, stream, runs, holds):
         ev = holds[k].get('ev')
         trace = getattr(ev, '_verif_trace', None) if ev is not None else None
         why = compare_loop(r, trace, mo)
+        # the termination clause, declaratively on the implementation: the number of iterations the hook saw is within the bound of
+        # C07_terminates, (flaw of the initial solution / 2 + 1) * (|districts| + |parties| + 2); and the model, run on LOOP_FUEL,
+        # must not answer out-of-fuel when that bound fits into LOOP_FUEL
+        seen, orders = holds[k].get('tgt'), holds[k].get('orders')
+        if trace and seen is not None and orders:
+            first = trace[0][0]
+            flaw0 = sum(abs(sum(first.get(x, {}).values()) - seen.get(x, 0)) for x in orders[0])
+            bound = (flaw0 // 2 + 1) * (len(c['votes']) + len({p for _, row in c['votes'] for p, _ in row}) + 2)
+            ctx.dist['termination: iterations within the proved bound'] += 1
+            if len(trace) > bound:
+                nd += 1
+                ctx.report(stream, dict(c, _class='termination-bound'), ok(len(trace)), ok(bound),
+                           'evaluate ran %d iterations, more than the bound (flaw/2 + 1) * (districts + parties + 2) = %d of the '
+                           'termination theorem C07_terminates' % (len(trace), bound), known_class)
+            if bound <= LOOP_FUEL and common.parse_sx(mo)[0] == 0 and common.parse_sx(mo)[1][0] == 99:
+                ctx.broken('model', 'the whole-loop model answers out-of-fuel within the proved bound %d (C07_terminates): %s' % (bound, line[:300]))
         if why is None:
             ctx.dist['loop: agrees (outcome, multipliers, every iteration state)'] += 1
             n_it = len(trace) if trace else 0
@@ -496,7 +528,10 @@ def judge_loop(ctx, stream, runs, holds):
                 # replay); if every explored output is certified the verdict is a broken tie without a failing input.
                 nd += 1
                 if not any(b[0].startswith('correspondence whole-loop') for b in ctx.broken_items):
-                    io = ok(enc_mat(r[1][0])) if r[0] == 'ok' else common.err(r[1])
+                    try:
+                        io = ok(enc_mat(r[1][0])) if r[0] == 'ok' else common.err(r[1])
+                    except Exception:   # noqa  (a Tie key in the matrix)
+                        io = repr(r[1][0])[:600]
                     ctx.broken('correspondence whole-loop model (Model/BipropLoop.v; theorems C07_evaluate_partial_correct, C07_evaluate_total_partial_correct)',
                                'stream %s: %s; case %s; implementation %s; model %s' % (stream, why, json.dumps(c)[:1500], io[:600], mo[:600]))
             elif sum(1 for x in ctx.notes if x.startswith('whole-loop model: tie lost')) < 3:
@@ -505,8 +540,8 @@ def judge_loop(ctx, stream, runs, holds):
 
 
 def known_class(c, io, mo):
-    if c.get('unit', 'biprop') == 'biprop' and not any(v for _, row in c['votes'] for _, v in row) and io.startswith('(0'):
-        return 'C07-all-zero'
+    # C07-all-zero (an election without votes apportioned instead of refused) is repaired by fixes/C07-all-zero.diff: no known
+    # class is left; a matrix returned without votes fails the checker's zero-cell clause and is a violation like any other
     return None
 
 
@@ -682,16 +717,50 @@ def gen_boundary(rng, count):
 def gen_exhaustive():
     import itertools
     for a, b, cc, dd in itertools.product(range(3), repeat=4):
-        if not (a or b or cc or dd):
-            continue
         for n in (1, 2, 3):
             for div in (1, 2):
                 yield dict(unit='biprop', div=div, votes=[[1, [[1, a], [2, b]]], [2, [[1, cc], [2, dd]]]], n=n, seats=['total'])
 
 
 def gen_all_zero():
-    for nd, np_, n, div in [(2, 2, 4, 1), (2, 3, 3, 2), (3, 2, 6, 1)]:
-        yield dict(unit='biprop', div=div, votes=[[d, [[p, 0] for p in range(1, np_ + 1)]] for d in range(1, nd + 1)], n=n, seats=['total'])
+    """elections without a single vote (refused since fixes/C07-all-zero.diff; judged by the verified cut): zeros stored, rows
+    left empty, seats as a total / a dictionary / through an apportioner"""
+    for nd, np_, n, div in [(2, 2, 4, 1), (2, 3, 3, 2), (3, 2, 6, 1), (2, 1, 1, 1), (3, 3, 3, 2), (2, 2, 2, 2), (4, 2, 8, 1)]:
+        votes = [[d, [[p, 0] for p in range(1, np_ + 1)]] for d in range(1, nd + 1)]
+        yield dict(unit='biprop', div=div, votes=votes, n=n, seats=['total'])
+        yield dict(unit='biprop', div=div, votes=votes, n=n, seats=['dict', [[d, n if d == 1 else 0] for d in range(1, nd + 1)]])
+        if n % nd == 0:
+            yield dict(unit='biprop', div=div, votes=votes, n=n, seats=['apportioner', 'uniform', n // nd])
+            yield dict(unit='biprop', div=div, votes=votes, n=n, seats=['dict', [[d, n // nd] for d in range(1, nd + 1)]])
+        yield dict(unit='biprop', div=div, votes=[[d, row if d == 1 else []] for d, row in votes], n=n, seats=['total'])
+
+
+def gen_empty_lines(rng, count):
+    """boundary of the refusal clause: matrices with whole districts and / or whole parties without votes; the district seats
+    (a dictionary or an apportioner) often give seats to a district without votes - then no seat matrix exists and the
+    evaluator has to refuse (through its adjustment coefficient); also the all-zero matrix itself"""
+    made = 0
+    while made < count:
+        nd, np_ = rng.randint(2, 5), rng.randint(1, 5)
+        zd = set(rng.sample(range(1, nd + 1), rng.randint(0, nd)))
+        zp = set(rng.sample(range(1, np_ + 1), rng.randint(0, np_ - 1))) if rng.random() < 0.5 else set()
+        big = rng.random() < 0.3
+        votes = [[d, [[p, 0 if d in zd or p in zp or rng.random() < 0.15 else rng.randint(1, 10 ** 6 if big else 9)]
+                      for p in range(1, np_ + 1)]] for d in range(1, nd + 1)]
+        if rng.random() < 0.3:
+            votes = [[d, [[p, v] for p, v in row if v]] for d, row in votes]
+        div = rng.choice([1, 2])
+        n = rng.randint(1, 3 * nd)
+        m = rng.random()
+        if m < 0.25:
+            seats = ['total']
+        elif m < 0.8:
+            seats = ['dict', [[d, k] for d, k in zip(range(1, nd + 1), composition(rng, n, nd))]]
+        else:
+            k = rng.randint(1, 3)
+            seats, n = ['apportioner', 'uniform', k], k * nd
+        made += 1
+        yield mk_case(rng, votes, div, n, seats)
 
 
 def corpus():
@@ -721,6 +790,7 @@ def explore(ctx, widen=1):
     ctx.exhaustive = False
     chunked(ctx, 'random', gen_random(ctx.rng, ctx.n(6000, 120000) * widen), limit)
     chunked(ctx, 'boundary', gen_boundary(ctx.rng, ctx.n(2500, 40000) * widen), limit)
+    chunked(ctx, 'empty-lines', gen_empty_lines(ctx.rng, ctx.n(1200, 20000) * widen), limit)
     chunked(ctx, 'same-labels', (dict(c, labels='ints') for c in gen_random(ctx.rng, ctx.n(1500, 30000) * widen, tiny_share=0.2)), limit)
     kw = dict(limit=10)
     ctx.differential('augment-step', gen_aug(ctx.rng, ctx.n(800, 8000)), aug_model_line, aug_impl, canon=aug_canon, **kw)
